@@ -10,6 +10,7 @@ import (
 	"os"
 	"path/filepath"
 	"strings"
+	"time"
 )
 
 // ---- PRNG (SplitMix64): every random choice derives from one seed ----
@@ -268,5 +269,35 @@ func Main(p *Prop) {
 	if err := WriteCases(p, cases, *out, meta); err != nil {
 		fmt.Fprintln(os.Stderr, err)
 		os.Exit(2)
+	}
+}
+
+// Guarded runs f on its own goroutine and waits at most d for it. It returns ("ok", nil panic value),
+// ("panic", value) or ("hang", nil). A hung f keeps its goroutine spinning until the harness exits
+// (Go cannot stop it), so callers should stop evaluating that input family after a hang; the harness
+// process itself still finishes and the hang is reported as an observable of the case, with its input.
+func Guarded(d time.Duration, f func()) (outcome string, panicValue any) {
+	type res struct {
+		pv  any
+		pan bool
+	}
+	ch := make(chan res, 1)
+	go func() {
+		defer func() {
+			if r := recover(); r != nil {
+				ch <- res{r, true}
+			}
+		}()
+		f()
+		ch <- res{nil, false}
+	}()
+	select {
+	case r := <-ch:
+		if r.pan {
+			return "panic", r.pv
+		}
+		return "ok", nil
+	case <-time.After(d):
+		return "hang", nil
 	}
 }
